@@ -90,6 +90,20 @@ class Interactor:
 
         return value
 
+    suspension = None
+
+    def suspend(self, value):
+        """Called with the value a generator is about to yield."""
+        if self.suspension is not None:
+            self.suspension.suspend()
+        return value
+
+    def resume(self, value):
+        """Called with the value sent to a generator that is being resumed."""
+        if self.suspension is not None:
+            self.suspension.resume()
+        return value
+
     def exit(self):
         """Exit the interactor.
 
